@@ -31,7 +31,7 @@ func init() {
 		Rule: "one run = one tape-driven history (quick 30-140, thorough 80-500 steps; per-run swarm of step weights, key alphabet, 0-3 prefix views incl. nested and 0xFF-terminated ones, " +
 			"~1/8 of runs with db_counts 2-4) applied simultaneously to memdb, goleveldb, bolt and badger opened on per-run scratch directories: Set/SetSync/Put, Delete/DeleteSync/Del, " +
 			"Get/Load/Has/Exist, batches (filled across several steps, interleaved with other steps; Write/Commit/WriteSync, abandoned, Reset, Reset-and-reused, written-Reset-reused), " +
-			"Iterator/ReverseIterator/NewIteratorWithPrefix/IteratePrefix with bounds drawn around existing keys (optionally Seek inside the domain while valid, or early Close), close+reopen, full audits; " +
+			"Iterator/ReverseIterator/NewIteratorWithPrefix/IteratePrefix with bounds drawn around existing keys (optionally Seek inside the domain while valid, or early Close), close+reopen (also through a view), full audits, and in about one run in six one batch-reuse scenario on badger in a child process; " +
 			"keys nil/empty/binary/shared-prefix/0xFF-terminated, values non-empty (1 B - 2 KiB). Oracle after every step: sorted-map model per backend (read-back of every written key, point reads, full iterator streams). " +
 			"Non-trivial: >=20 steps, >=1 written batch with >=2 ops, >=1 iteration that returned >=2 pairs on every backend. Distinct = hash of the step sequence and final content.",
 		Real: []string{"libs/db MemDB", "libs/db GoLevelDB on goleveldb v1.0.0 (real files)", "libs/db BoltDB on boltdb v1.3.1 (real files, fsync)", "libs/db BadgerDB on badger v1.6.0 (real files)",
@@ -46,8 +46,9 @@ func init() {
 			"with db_counts>1 (opt-in sharding, default 1) the engines iterate shard by shard; global key order is then not demanded, only the multiset of pairs; Seek/early Close and prefix views are not combined with sharding",
 			"badger batches are used once in-process (a second Write/Commit after Write or Reset panics in a goroutine the adapter spawns, which would kill the worker); the reuse pattern is exercised on badger in a child process instead",
 			"bolt auto-flushes a batch at 100000 ops and badger splits oversized batches: batch sizes here stay far below both",
+			"harness hygiene that does not touch the ordered map: a badger instance that saw no write since it was opened gets a sentinel key (outside the generated alphabet) written and deleted before Close, because BadgerDB's never-stopped GC goroutine otherwise pins a 17 MB memtable per open; Seek on a prefix view (which leaks an unclosed underlying iterator) is issued at most once per run in a third of the runs; workers are recycled every 30 runs",
 		},
-		QuickRuns: 1000, ThoroughRuns: 8000, QuickBudget: 55 * time.Second, ThoroughBudget: 15 * time.Minute,
+		QuickRuns: 2500, ThoroughRuns: 25000, QuickBudget: 55 * time.Second, ThoroughBudget: 15 * time.Minute,
 		Run: run, MaxProcs: envInt("DBRIG_MAXPROCS", 2), RunsPerProcess: 30, RunTimeout: 120 * time.Second,
 	})
 }
